@@ -18,19 +18,20 @@ Trace == ndJsonDeserialize(TraceFile)
 
 VARIABLES l, tid, cfg,    \* cfg: the reset line of the current run
           got,            \* [node -> [kind -> set of senders handed over]]
+          first,          \* [node -> {<<kind, from, h>>}]: content of the FIRST commitment / reveal handed over per sender
           emitted,        \* [node -> sequence of kinds emitted]
           rets,           \* set of [node, returned, ok, pub]
           signbad,        \* "none" | "ok" | "bad" | "panic"
           sgrets,         \* orchestrated signing: set of [node, returned, ok, verified]
           crashed, drift, viol
 
-vars == <<l, tid, cfg, got, emitted, rets, signbad, sgrets, crashed, drift, viol>>
+vars == <<l, tid, cfg, got, first, emitted, rets, signbad, sgrets, crashed, drift, viol>>
 Line == Trace[l]
 Rng(s) == {s[i] : i \in DOMAIN s}
 
 NoCfg == [n |-> 0, th |-> 0, ids |-> <<>>, byz |-> FALSE, fault |-> [silent_peer |-> 0, after |-> 0, withhold_idx |-> -1], scheme |-> "", mode |-> ""]
 
-Init == /\ l = 1 /\ tid = -1 /\ cfg = NoCfg /\ got = <<>> /\ emitted = <<>> /\ rets = {} /\ signbad = "none" /\ sgrets = {}
+Init == /\ l = 1 /\ tid = -1 /\ cfg = NoCfg /\ got = <<>> /\ first = <<>> /\ emitted = <<>> /\ rets = {} /\ signbad = "none" /\ sgrets = {}
         /\ crashed = FALSE /\ drift = "" /\ viol = {}
 
 Nodes == Rng(cfg.ids)
@@ -47,16 +48,19 @@ Reset ==
   /\ tid' = Line.t /\ cfg' = IF "ids" \in DOMAIN Line THEN Line ELSE NoCfg
   /\ got' = IF "ids" \in DOMAIN Line THEN [x \in Rng(Line.ids) |-> [k \in 1..3 |-> {}]] ELSE <<>>
   /\ emitted' = IF "ids" \in DOMAIN Line THEN [x \in Rng(Line.ids) |-> <<>>] ELSE <<>>
+  /\ first' = IF "ids" \in DOMAIN Line THEN [x \in Rng(Line.ids) |-> {}] ELSE <<>>
   /\ rets' = {} /\ signbad' = "none" /\ sgrets' = {} /\ crashed' = FALSE /\ drift' = "" /\ viol' = {}
 
 InitEv ==
   /\ Line.e = "init"
   /\ SetDrift(IF Line.parties = cfg.ids /\ Line.threshold = cfg.th THEN "" ELSE "Init arguments differ from the configuration")
-  /\ UNCHANGED <<tid, cfg, got, emitted, rets, signbad, sgrets, crashed, viol>>
+  /\ UNCHANGED <<tid, cfg, got, first, emitted, rets, signbad, sgrets, crashed, viol>>
 
 OnMsgEv ==
   /\ Line.e = "onmsg"
   /\ got' = IF Line.kind \in 1..3 /\ Line.node \in DOMAIN got THEN [got EXCEPT ![Line.node][Line.kind] = @ \cup {Line.from}] ELSE got
+  /\ first' = IF Line.kind \in 2..3 /\ Line.node \in DOMAIN first /\ ~\E x \in first[Line.node] : x[1] = Line.kind /\ x[2] = Line.from
+                 THEN [first EXCEPT ![Line.node] = @ \cup {<<Line.kind, Line.from, Line.h>>}] ELSE first
   /\ SetDrift(IF Line.kind \in 1..3 /\ Line.bc # (Line.kind # 1) THEN "message class differs from the protocol (shares are point-to-point, commitments and reveals broadcast)" ELSE "")
   /\ UNCHANGED <<tid, cfg, emitted, rets, signbad, sgrets, crashed, viol>>
 
@@ -74,27 +78,27 @@ SendEv ==
                  ELSE "")
      /\ Check({\* C05: no honest party discloses its public-key contribution before it holds the commitments of all others
                <<"RevealOnlyAfterAllCommits", (honest /\ Line.kind = 3) => got[x][2] = others>>})
-  /\ UNCHANGED <<tid, cfg, got, rets, signbad, sgrets, crashed>>
+  /\ UNCHANGED <<tid, cfg, got, first, rets, signbad, sgrets, crashed>>
 
 RetEv ==
   /\ Line.e = "kgret"
   /\ rets' = rets \cup {[node |-> Line.node, returned |-> Line.returned, ok |-> Line.ok, pub |-> Line.pub]}
-  /\ UNCHANGED <<tid, cfg, got, emitted, signbad, sgrets, crashed, drift, viol>>
+  /\ UNCHANGED <<tid, cfg, got, first, emitted, signbad, sgrets, crashed, drift, viol>>
 
 SignEv ==
   /\ Line.e = "signcheck"
   /\ signbad' = IF Line.panic # "" THEN "panic" ELSE IF Len(Line.bad) > 0 THEN "bad" ELSE "ok"
-  /\ UNCHANGED <<tid, cfg, got, emitted, rets, sgrets, crashed, drift, viol>>
+  /\ UNCHANGED <<tid, cfg, got, first, emitted, rets, sgrets, crashed, drift, viol>>
 
 SgRetEv ==
   /\ Line.e = "sgret"
   /\ sgrets' = sgrets \cup {[node |-> Line.node, returned |-> Line.returned, ok |-> Line.ok, verified |-> Line.verified]}
-  /\ UNCHANGED <<tid, cfg, got, emitted, rets, signbad, crashed, drift, viol>>
+  /\ UNCHANGED <<tid, cfg, got, first, emitted, rets, signbad, crashed, drift, viol>>
 
 CrashEv ==
   /\ Line.e = "crash"
   /\ crashed' = TRUE
-  /\ UNCHANGED <<tid, cfg, got, emitted, rets, signbad, sgrets, drift, viol>>
+  /\ UNCHANGED <<tid, cfg, got, first, emitted, rets, signbad, sgrets, drift, viol>>
 
 EndEv ==
   /\ Line.e = "end"
@@ -113,10 +117,14 @@ EndEv ==
           \* C01: every participant of an orchestrated signing session among an authorised set obtains a valid signature
           <<"EveryParticipantGotValidSig", (~Faulty /\ cfg.scheme = "eddsa" /\ ~crashed) =>
                  (Cardinality(sgrets) = cfg.n /\ \A x \in sgrets : x.returned /\ x.ok /\ x.verified)>>,
+          \* C05: a party that completes accepted, from every other participant, a key that matches the FIRST commitment it was
+          \* handed from that participant (commitments are binding: nobody can choose its key after seeing the others')
+          <<"CommitmentBinding", \A r \in oks : r.node \in DOMAIN first =>
+                 \A c \in {x \in first[r.node] : x[1] = 2} : \A v \in {x \in first[r.node] : x[1] = 3 /\ x[2] = c[2]} : v[3] = c[3]>>,
           <<"NoCrash", ~crashed>>,
           <<"NoPanicInUse", signbad # "panic">>})
      /\ PrintT(<<"END", ToJson([t |-> tid, drift |-> drift, completed |-> Cardinality(oks), crashed |-> crashed])>>)
-  /\ UNCHANGED <<tid, cfg, got, emitted, rets, signbad, sgrets, crashed, drift>>
+  /\ UNCHANGED <<tid, cfg, got, first, emitted, rets, signbad, sgrets, crashed, drift>>
 
 Next == /\ l <= Len(Trace) /\ l' = l + 1
         /\ (Reset \/ InitEv \/ OnMsgEv \/ SendEv \/ RetEv \/ SignEv \/ SgRetEv \/ CrashEv \/ EndEv)
